@@ -19,6 +19,8 @@ func init() {
 			return c10.ReqDecode(a.In, w, o)
 		case "rerecord":
 			return c10.ReRecord(a.In, w, o)
+		case "reflective":
+			return c10.DriveReflective(w, o)
 		case "vecsizes":
 			return c10.VecSizes(o.Schema, w)
 		case "names":
@@ -34,6 +36,6 @@ func init() {
 		if len(a.Rest) < 1 {
 			return fmt.Errorf("usage: vh replay C10 -in VECTORS -out F SCHEMA.json")
 		}
-		return c10.Replay(a.In, w, c10.Opts{Schema: a.Rest[0]})
+		return c10.Replay(a.In, w, c10.Opts{Schema: a.Rest[0], Part: a.Part})
 	})
 }
